@@ -120,7 +120,7 @@ func (s *S) leafFns(budget int) {
 // one cell"; [T] on everything, also repeated ids.
 func (s *S) siblings(budget int) {
 	c, g := s.c, s.g
-	for k := 0; k < 240*budget; k++ {
+	for k := 0; k < siblingsN(budget); k++ {
 		var q [4]uint64
 		class := ""
 		switch g.n(12) {
@@ -201,4 +201,12 @@ func (s *S) siblings(budget int) {
 		}
 		s.t.check(fmt.Sprintf("areSiblings %x", q), eqB(vkit.App("s2_areSiblings", hz(q[0]), hz(q[1]), hz(q[2]), hz(q[3])), got))
 	}
+}
+
+// siblingsN: number of areSiblings quadruples (quick keeps every construction class)
+func siblingsN(budget int) int {
+	if budget <= 1 {
+		return 120
+	}
+	return 240 * budget
 }
